@@ -32,6 +32,14 @@ def gen_matrix(rng, r, c, family):
         a = [rng.randint(0, 5) for _ in range(r)]
         b = [rng.randint(0, 5) for _ in range(c)]
         return [[a[i] + b[j] for j in range(c)] for i in range(r)]
+    if family == 'ordered':
+        # strongly ordered: cost[i][j] = a_i * b_j with sorted factors (the solver needs the
+        # most augmentation steps on these)
+        scale = rng.choice([1, 0.01, 1.0 / 3])
+        return [[(i + 1) * (j + 1) * scale for j in range(c)] for i in range(r)]
+    if family == 'ordered_grade':
+        m = float(max(r, c)) ** 2
+        return [[1 - (i + 1) * (j + 1) / (m + 1) for j in range(c)] for i in range(r)]
     if family == 'const':
         v = rng.choice([0, 1, 0.3])
         return [[v for _ in range(c)] for _ in range(r)]
@@ -82,7 +90,8 @@ class C06World(object):
         for _ in range(n_ev):
             r = rng.randint(1, max_n)
             c = rng.randint(1, max_n) if rng.random() < 0.6 else r
-            fam = rng.choice(['int', 'float', 'ties', 'grade', 'rank1', 'const', 'tiny', 'grade', 'ties'])
+            fam = rng.choice(['int', 'float', 'ties', 'grade', 'rank1', 'const', 'tiny', 'grade', 'ties',
+                              'ordered', 'ordered_grade'])
             m = gen_matrix(rng, r, c, fam)
             ev = {'op': 'solve', 'solver': rng.randrange(n_solvers), 'family': fam, 'matrix': m}
             if rng.random() < 0.3:
